@@ -109,6 +109,9 @@ pub fn list_to_vector(vm: &mut Vm) -> Result<VCell, Error> {
         outv.push(list.as_car()?);
         list = vm.heap.get(&list.as_cdr()?);
     }
+    if !list.is_nil() {
+        return Err(InvalidSyntax("list->vector requires a proper list".into()));
+    }
     Ok(VCell::vector(outv))
 }
 
